@@ -206,7 +206,7 @@ theorem cartesian_gradient_rotation (α φ : ℝ) (c : String → ℝ) :
     (aberration_surface_cartesian_gradients α φ c).2 =
         Real.sin φ * (aberration_surface_polar_gradients α φ c).1
           + Real.cos φ * (aberration_surface_polar_gradients α φ c).2 := by
-  constructor <;> simp only [aberration_surface_cartesian_gradients] <;> num_real
+  constructor <;> simp only [aberration_surface_cartesian_gradients] <;> num_real <;> try ring
 
 /-- **Cartesian gradients = λ·∇_{x,y}χ** (chain rule through the polar coordinates the source itself computes,
 `k = sqrt(kx² + ky²)`, `phi = arctan2(ky, kx)`): at every point (x, y) ≠ (0, 0) — the negative real axis, where
